@@ -17,7 +17,7 @@ from ..state import State, Obj, IntV, PtrV, NULL, MAXLEN
 from ..terms import Lin, ZERO, base_atoms, eval_lin
 from . import own
 from .c08 import string_scene, SliceHooks
-from .common import short, fn_loc, slot_subst, subst, robust
+from .common import short, fn_loc, slot_subst, subst, robust, congruent
 
 LEVEL = 'proof'
 EXPLANATION = ('abstract interpretation of every integer printer with the value free over its whole type (magnitude term and sign '
@@ -547,6 +547,90 @@ def plain_parsers(run, m, F, floats=False):
     return n
 
 
+def narrowing_wrappers(run, m, F, E):
+    """R12.5: to_short / to_int / to_ushort / to_uint (with and without conversion_result) return the value their wide sibling
+    parsed, converted to the narrow type - nothing else.  The wide member is a symbol L over its whole range; every returning path
+    must return L modulo 2^width (what static_cast does).  A result that also depends on anything else - errno left behind by an
+    earlier call, say - comes with a witness."""
+    n = 0
+    for name in F.lib:
+        f = m.func(name)
+        mt = re.match(r'^ST::string::to_(short|int|ushort|uint)\((int|ST::conversion_result&, int)\) const$', f.dem)
+        if not mt:
+            continue
+        n += 1
+        bits = int(f.ret[1:]) if f.ret[1:].isdigit() else None
+        if bits is None:
+            run.ob('R12.5', short(f.dem), None, 'return type %s not an integer' % f.ret, loc=fn_loc(f))
+            continue
+
+        class NH(Hooks):
+            max_depth = 6
+
+            def __init__(self, mm):
+                self.m = mm
+
+            def call(self, I, st, inst, nm, args):
+                if nm is None:
+                    return None
+                d = self.m.dem(nm)
+                if re.match(r'^ST::string::to_u?long(_long)?\(', d):
+                    v = I.fresh_int(st, 64, 'wide', signed=not d.startswith('ST::string::to_u'))
+                    st.ev('wide', inst, d.split('(')[0], v)
+                    return [(st, v)]
+                if d == '__errno_location':
+                    if 'ERRNO' not in st.objs:
+                        o = Obj('ext', Lin.const(4))
+                        o.lazy = True
+                        st.objs['ERRNO'] = o
+                    return [(st, PtrV('ERRNO'))]
+                return None
+        I = Interp(m, F, E, NH(m))
+        st = State()
+        this = Obj('ext', None)
+        this.lazy = True
+        st.objs['THIS'] = this
+        args = [PtrV('THIS')]
+        for p in f.params[1:]:
+            if p['ty'].endswith('*'):
+                r = Obj('ext', None)
+                r.lazy = True
+                st.objs['RES'] = r
+                args.append(PtrV('RES'))
+            else:
+                args.append(I.fresh_int(st, int(p['ty'][1:]), 'base', lo=0, hi=36))
+        try:
+            outs = I.run(I.start(f, args, st))
+        except Exception as e:
+            run.ob('R12.5', short(f.dem), None, 'not interpreted: %s' % (str(e)[:70],), loc=fn_loc(f))
+            continue
+        probs, und, nret = [], [], 0
+        for o in outs:
+            if o.kind != 'ret' or not isinstance(o.val, IntV):
+                continue
+            nret += 1
+            s2 = o.st
+            wd = [e for e in s2.events if e[0] == 'wide']
+            if len(wd) != 1:
+                und.append('%d calls of a wide parsing member on a returning path' % len(wd))
+                continue
+            L_ = I.as_u(s2, wd[0][3])
+            R_ = I.as_u(s2, o.val)
+            M = 1 << bits
+            env = s2.find_model([L_, R_], lambda v: (v[0] - v[1]) % M != 0)
+            if env is not None:
+                from ..terms import eval_lin
+                probs.append('returns a value that is not the narrowed result of %s (e.g. %d for a wide result of %d): it depends on something '
+                             'besides the text parsed; witness %s' % (wd[0][2].split('::')[-1], eval_lin(R_, env) % M, eval_lin(L_, env), own.fmt_env(env)))
+            elif s2.is_eq0(L_ - R_) is not True and not congruent(s2, L_, R_, bits):
+                und.append('result %r not decided to be the narrowed wide result %r' % (R_, L_))
+        if nret == 0 and not probs:
+            und.append('no returning path explored')
+        run.ob('R12.5', short(f.dem), False if probs else (None if und else True), probs[0] if probs else (und[0] if und else
+               'returns the wide result converted to %d bits on every path' % bits), loc=fn_loc(f), disc='narrowing')
+    return n
+
+
 def check(run):
     m = run.module()
     F = run.facts()
@@ -558,5 +642,6 @@ def check(run):
     run.floor('uint_formatter instantiations', digit_loop(run, m, F, E), 4)
     run.floor('parsing members with conversion_result', parsers(run, m, F, E), 6)
     run.floor('plain parsing members', plain_parsers(run, m, F), 6)
+    run.floor('narrowing parsing members', narrowing_wrappers(run, m, F, E), 8)
     for o in run.obs[:2] + [o for o in run.obs if o['rule'] == 'R12.3'][:2] + [o for o in run.obs if o['rule'] == 'R12.4'][:2]:
         run.sample(dict(rule=o['rule'], subject=o['subject'], case=o['disc'], verdict=o['verdict'], detail=o['detail'][:160]))
